@@ -150,5 +150,5 @@ def before_in(I, a, b, top=None):
         return ia <= ib
     idom = getattr(I, "_idom", None)
     if idom is None:
-        idom = I._idom = I.g.dominators()
+        idom = I._idom = I.dominators()
     return I.g.dominates(idom, ga, gb)
